@@ -48,6 +48,11 @@ fn forms() -> Vec<Form> {
         f("var-variant-named", "var", false, "type Tw = | Aa(p: {TY}, q: int)\n", "var (Tw.Aa(p = x, q = y), z) = (Tw.Aa(p = {OLD}, q = 2), 1)\nx {OP} {RHS}\nprintln(x)\n", false),
         f("let-struct", "let", false, "type Pq = { v: {TY}, w: int }\n", "let Pq(v = x, w = _) = Pq({OLD}, 1)\nx {OP} {RHS}\nprintln(x)\n", false),
         f("var-struct", "var", false, "type Pq = { v: {TY}, w: int }\n", "var Pq(x, _) = Pq({OLD}, 1)\nx {OP} {RHS}\nprintln(x)\n", false),
+        // un-annotated or-patterns (D97 f04535c, D103 ae0a5b4: bound through the matching alternative)
+        f("let-or-pattern-plain", "let", false, "", "let ((x, _) | (_, x)) = ({OLD}, {OLD})\nx {OP} {RHS}\nprintln(x)\n", false),
+        f("var-or-pattern-plain", "var", false, "", "var ((x, _) | (_, x)) = ({OLD}, {OLD})\nx {OP} {RHS}\nprintln(x)\n", false),
+        f("var-or-pattern-variant", "var", false, "type Ab = | Pa({TY}) | Pb({TY})\n", "var (Ab.Pa(x) | Ab.Pb(x)) = Ab.Pb({OLD})\nx {OP} {RHS}\nprintln(x)\n", false),
+        f("for-or-pattern", "for", false, "type Ab = | Pa({TY}) | Pb({TY})\n", "for (Ab.Pa(x) | Ab.Pb(x)) in [Ab.Pb({OLD})] {\n  x {OP} {RHS}\n  println(x)\n}\n", false),
         f("let-or-pattern", "let", false, "", "let ((x, _) | (_, x)): ({TY}, {TY}) = ({OLD}, {OLD})\nx {OP} {RHS}\nprintln(x)\n", false),
         f("var-or-pattern", "var", false, "", "var ((x, _) | (_, x)): ({TY}, {TY}) = ({OLD}, {OLD})\nx {OP} {RHS}\nprintln(x)\n", false),
         f("for", "for", false, "", "for x in [{OLD}] {\n  x {OP} {RHS}\n  println(x)\n}\n", false),
